@@ -6,7 +6,6 @@ import (
 	"encoding/hex"
 	"fmt"
 	"crypto/sha256"
-	"io"
 	"strconv"
 	"strings"
 	"time"
@@ -36,7 +35,6 @@ func factsPmt() []core.Fact {
 		{Name: "merkleBlockCommand", Value: m.Command()},
 		{Name: "merkleBlockMaxPayload", Value: int64(m.MaxPayloadLength(wire.ProtocolVersion))},
 		{Name: "bip0037Version", Value: int64(wire.BIP0037Version)},
-		{Name: "maxBlockPayload", Value: int64(wire.MaxBlockPayload)},
 	}
 }
 
@@ -120,25 +118,9 @@ func pmtExtract(mb *wire.MsgMerkleBlock) (root chainhash.Hash, idx []uint32, ids
 	return root, e.idx, e.ids, true
 }
 
-func pmtWireErr(err error) string {
-	if err == io.EOF || err == io.ErrUnexpectedEOF {
-		return "err:eof"
-	}
-	if me, ok := err.(*wire.MessageError); ok {
-		d := me.Description
-		switch {
-		case strings.Contains(d, "invalid for protocol"):
-			return "err:pver"
-		case strings.Contains(d, "too many transaction hashes"):
-			return "err:toomanyhashes"
-		case strings.Contains(d, "flags size"):
-			return "err:toomanyflags"
-		case strings.Contains(d, "non-canonical"):
-			return "err:noncanon"
-		}
-	}
-	return "err:other"
-}
+// pmtWireErr: why a decode failed (short input, non-canonical count, count above an internal sanity cap,
+// protocol version too old) is not part of the observation - error texts and the caps are free.
+func pmtWireErr(err error) string { return "err" }
 
 // pmtw <pver> <hex>: MsgMerkleBlock.BtcDecode of arbitrary bytes, re-encoded and compared
 func execPmtw(f []string) string {
@@ -282,10 +264,7 @@ func genPmtWire(g *core.Gen) {
 		case 0: // count limits with (necessarily) short data
 			hcount = pmtVarint(uint64(400001 + r.Pick(-1, 0, 1)))
 		case 1:
-			fcount = pmtVarint(uint64(50000 + r.Pick(-1, 0, 1)))
-			if r.Bool() {
-				flags = make([]byte, 50001) // enough data for 49999 / 50000 / 50001
-			}
+			fcount = pmtVarint(uint64(50000 + r.Pick(-1, 0, 1))) // with (necessarily) short data
 		case 2: // non-canonical counts
 			hcount = [][]byte{{0xfd, byte(nh), 0}, {0xfe, byte(nh), 0, 0, 0}, {0xff, byte(nh), 0, 0, 0, 0, 0, 0, 0}}[r.Intn(3)]
 		case 3:
